@@ -88,11 +88,20 @@ Init ==
 \* the caller appends one stamped reading to the list it will pass to the next tick
 AddReading(t, key) ==
   /\ ~done /\ Len(log) < MaxTicks /\ Len(pend) < MaxReadings
-  /\ pend' = Append(pend, <<t, key>>)
+  /\ pend' = Append(pend, <<t, key, 0>>)
   /\ UNCHANGED <<max, t0, hasControl, held, ghost, nr, log, last, done>>
 
-\* attach unique ids to the readings of this tick
-WithIds(raw) == [i \in DOMAIN raw |-> [t |-> raw[i][1], key |-> raw[i][2], id |-> nr + i]]
+\* the caller lists a reading OBJECT it already listed once more (the list is a sequence, not a set: the same reading is
+\* folded again, at its place)
+RepeatReading(i) ==
+  /\ ~done /\ Len(log) < MaxTicks /\ Len(pend) < MaxReadings
+  /\ i \in DOMAIN pend /\ pend[i][3] = 0
+  /\ pend' = Append(pend, <<pend[i][1], pend[i][2], i>>)
+  /\ UNCHANGED <<max, t0, hasControl, held, ghost, nr, log, last, done>>
+
+\* attach ids to the readings of this tick: unique per reading object (a repeated object keeps its id)
+WithIds(raw) == [i \in DOMAIN raw |-> [t |-> raw[i][1], key |-> raw[i][2],
+                                      id |-> nr + (IF raw[i][3] = 0 THEN i ELSE raw[i][3])]]
 
 \* a model with control inputs cannot be ticked without them
 TickRefused(out) ==
@@ -127,6 +136,7 @@ Emit ==
 
 Next ==
   \/ \E t \in Times : \E key \in Keys : AddReading(t, key)
+  \/ \E i \in 1..MaxReadings : RepeatReading(i)
   \/ \E out \in Times : \E ctl \in BOOLEAN : Tick(out, ctl)
   \/ \E out \in Times : TickRefused(out)
   \/ Emit
